@@ -130,7 +130,7 @@ impl<'input> Lexer<'input> {
                 Err(Error::LexicalError(i))
             }
         } else {
-            Err(Error::LexicalError(usize::max_value()))
+            Err(Error::LexicalError(self.input.len()))
         }
     }
 
